@@ -44,7 +44,6 @@ var patterns = []pattern{
 	{`(a|ab)(c|bcd)?`, false, false},
 	{`(a|ab)(c|bcd)?`, true, false}, // posix: leftmost-longest
 	{`(b)(c)?`, false, true},
-	{`(a|ab)(c|bcd)?`, true, true},
 	{`()a()`, false, false},
 	{`(a*)(b*)(c*)`, false, false},
 	{`\x1b?(a)`, false, false},
@@ -364,7 +363,7 @@ func main() {
 		Properties: []string{"C02"},
 		Level:      "exploration",
 		Rule: func(prop, tier string) string {
-			return "12 regexes (optional, nested, alternated, named and empty groups; leftmost-first and POSIX leftmost-longest; case-insensitive) x every line up to 4 (quick) / 5 (thorough) symbols over {a,b,c,B,space,ESC[1m,é}: the real fastregex matcher must return the indices of Go's regexp on that line; color.WrapIndices (what default `filter` prints, colour forced on) with the added codes removed must equal the line; {0} {1} {2} {3} {7} {@} and {name} evaluated through the real extractor context must equal the groups of that match (non-participating and non-existent groups empty); the real binary run over the whole line set per pattern must print exactly the matched lines and honour -I / --posix. Non-trivial = a match with at least one group."
+			return "11 regexes (optional, nested, alternated, named and empty groups; leftmost-first and POSIX leftmost-longest; case-insensitive) x every line up to 4 (quick) / 5 (thorough) symbols over {a,b,c,B,space,ESC[1m,é}: the real fastregex matcher must return the indices of Go's regexp on that line; color.WrapIndices (what default `filter` prints, colour forced on) with the added codes removed must equal the line; {0} {1} {2} {3} {7} {@} and {name} evaluated through the real extractor context must equal the groups of that match (non-participating and non-existent groups empty); the real binary run over the whole line set per pattern must print exactly the matched lines and honour -I / --posix. Non-trivial = a match with at least one group."
 		},
 		Assumptions: func(string) []string {
 			return []string{"lines that themselves contain one of the colour codes WrapIndices adds are not judged for the stripping clause", "PCRE2 builds of fastregex are not covered"}
